@@ -37,8 +37,13 @@ type Outcome struct {
 	Extra     string `json:"extra,omitempty"` // DecodePatch / Accessors: operations and accessor results
 	Steps     int64  `json:"steps,omitempty"`
 
-	patch any    // DecodePatch: the decoded patch (not part of the comparison)
-	ret   []byte // the slice the library returned, kept to see whether a later call clobbers it
+	// handMade: the call used a hand-assembled Patch with a damaged raw message.  How the library
+	// fails on such a value (which error, or a panic) is nobody's promise and does depend on Go's
+	// map iteration order (lazyNode.equal ranges over a map: it meets the damaged member or a
+	// differing one first); that it fails, and what it leaves behind, is still compared.
+	handMade bool
+	patch    any    // DecodePatch: the decoded patch (not part of the comparison)
+	ret      []byte // the slice the library returned, kept to see whether a later call clobbers it
 }
 
 func (o *Outcome) Failed() bool { return o.Status != StOK }
@@ -81,6 +86,9 @@ func byteExact(fn int) bool {
 // Compare returns "" when got equals want under the per-function rule, else the
 // name of the first differing field.
 func Compare(fn int, want, got *Outcome) string {
+	if (want.handMade || got.handMade) && (want.Status == StError || want.Status == StPanic) && (got.Status == StError || got.Status == StPanic) {
+		return ""
+	}
 	if want.Status != got.Status {
 		return "status"
 	}
